@@ -54,8 +54,25 @@ pub fn lifecycle(rng: &mut Prng, spec: SpecId, n_eoa: usize, base: usize, pre_st
     let e = addr(0x9005); // existing empty account (EIP-161 target)
     let heir = eoa(rng.below(n_eoa as u64) as usize);
 
-    // child: counter in slot 0; selfdestructs unless calldata word 1 is odd (then it reverts first)
-    let child_runtime = if rng.chance(2, 3) {
+    // child, three variants. (1) counter in slot 0; selfdestructs unless calldata word 1 is odd (then it
+    // reverts first). (2) never selfdestructs. (3) "moded": calldata word 0 selects the slot (0-3),
+    // word 1 the mode - bit 2: read only, bit 0: revert after the write, bit 1: keep living after the
+    // write, none: write then selfdestruct - so one block can write a slot, destroy the contract,
+    // re-create it and write / read the same slot again without destroying it.
+    let bit = |n: u64| Expr::And(Box::new(Expr::CallData(1)), Box::new(imm(n)));
+    let key = || Expr::And(Box::new(Expr::CallData(0)), Box::new(imm(3)));
+    let variant = rng.below(6);
+    let moded = variant >= 3;
+    let child_runtime = if moded {
+        evmasm::compile(&[
+            Stmt::Mix(sload(key())),
+            Stmt::ReturnIf(bit(4)),
+            Stmt::Sstore(key(), add(sload(key()), imm(1))),
+            Stmt::RevertIf(bit(1)),
+            Stmt::ReturnIf(bit(2)),
+            Stmt::SelfDestruct(addr_expr(heir)),
+        ])
+    } else if variant >= 1 {
         evmasm::compile(&[
             Stmt::Mix(sload(imm(0))),
             Stmt::Sstore(imm(0), add(sload(imm(0)), imm(1))),
@@ -130,8 +147,46 @@ pub fn lifecycle(rng: &mut Prng, spec: SpecId, n_eoa: usize, base: usize, pre_st
         a.code
     };
     pool.push(Intent { sender: s(rng), to: None, value: U256::from(3), data: Bytes::from(boom), gas_limit: 300_000, auths: vec![], label: "create-and-destroy" });
+    if moded {
+        for slot in [0u64, 2, 3] {
+            pool.push(Intent::call(s(rng), made, &[slot, 2], "child-write"));
+            pool.push(Intent::call(s(rng), made, &[slot, 4], "child-read"));
+        }
+        pool.push(Intent::call(s(rng), made, &[2, 0], "child-write-destroy"));
+    }
+    if moded && rng.chance(1, 2) {
+        // the child may already exist (with storage in the database) at the address the factory creates
+        pre_state.push(AccountSpec {
+            address: made,
+            balance: U256::from(10),
+            nonce: 1,
+            code: Bytes::from(child_runtime.clone()),
+            storage: vec![(U256::from(0), U256::from(4)), (U256::from(2), U256::from(6))],
+        });
+    }
     let n = rng.range(2, 7) as usize;
     let mut out = Vec::new();
+    if moded && rng.chance(1, 2) {
+        // storyline: (create) -> write slot k and destroy -> re-create -> write slot k -> read slot k, the
+        // last two as separate transactions that race each other; other intents sprinkled in between
+        let k = *rng.pick(&[2u64, 3, 2, 0]);
+        let exists = pre_state.iter().any(|a| a.address == made);
+        if !exists || rng.chance(1, 3) {
+            out.push(Intent::call(s(rng), f, &[0, 0], "factory-create"));
+        }
+        if rng.chance(1, 3) {
+            out.push(Intent::call(s(rng), made, &[k, 2], "child-write"));
+        }
+        out.push(Intent::call(s(rng), made, &[k, 0], "child-write-destroy"));
+        out.push(Intent::call(s(rng), f, &[0, 0], "factory-create-again"));
+        out.push(Intent::call(s(rng), made, &[k, 2], "child-write"));
+        out.push(Intent::call(s(rng), made, &[k, if rng.chance(1, 2) { 4 } else { 2 }], "child-read"));
+        for _ in 0..rng.below(3) {
+            let at = rng.below(out.len() as u64 + 1) as usize;
+            out.insert(at, rng.pick(&pool).clone());
+        }
+        return out;
+    }
     for _ in 0..n {
         out.push(rng.pick(&pool).clone());
     }
@@ -436,7 +491,7 @@ pub fn reserve_template(rng: &mut Prng, n_eoa: usize, base: usize, pre_state: &m
 // writes), reads resolve to writers that later move, and chains of re-executions are the norm.
 // ------------------------------------------------------------------------------------------------
 
-pub fn conflict_dense(rng: &mut Prng, n_eoa: usize, base: usize, max_txs: usize, pre_state: &mut Vec<AccountSpec>) -> Vec<Intent> {
+pub fn conflict_dense(rng: &mut Prng, n_eoa: usize, base: usize, max_txs: usize, probes: bool, pre_state: &mut Vec<AccountSpec>) -> Vec<Intent> {
     let u = contract(base);
     let and3 = |e: Expr| Expr::And(Box::new(e), Box::new(imm(3)));
     let program = vec![
@@ -468,6 +523,19 @@ pub fn conflict_dense(rng: &mut Prng, n_eoa: usize, base: usize, max_txs: usize,
         let w = 1 + rng.below(6);
         let (base_r, p_r) = if rng.chance(1, 2) { (100, hot(rng)) } else { (junk + 4, junk + 5) };
         out.push(Intent::call(rng.below(n_eoa as u64) as usize, u, &[a, b, v, base_w, p_w, w, base_r, p_r], "dense"));
+    }
+    if probes {
+        // fee-recipient probes: the dense calls use data-dependent amounts of gas (value transitions of
+        // the slots they write), so the reward an incarnation leaves behind differs between a stale and
+        // the final incarnation; a probe reads BALANCE(COINBASE) - the fold of every preceding reward -
+        // and stores it, so what it observed is part of its outcome and of the state
+        let probe = contract(base + 1);
+        let program = vec![Stmt::Mix(Expr::Balance(Box::new(Expr::Coinbase))), Stmt::Sstore(Expr::CallData(0), Expr::Acc)];
+        pre_state.push(contract_account(probe, &program, &[], 0));
+        for k in 0..rng.range(1, 2) {
+            let at = rng.range(1, out.len() as u64) as usize;
+            out.insert(at, Intent::call(rng.below(n_eoa as u64) as usize, probe, &[2000 + k], "coinbase-probe"));
+        }
     }
     out
 }
